@@ -45,11 +45,13 @@ pub fn needs_isolation(case: &TwCase) -> bool {
 
 pub enum FitRes {
     Model(TweedieRegressor<f64>),
-    Params(Vec<f64>, f64),
+    /// coef, intercept, predictions on `tw_queries(x, coef)` (computed in the child by the real `predict`)
+    Params(Vec<f64>, f64, Vec<f64>),
     ErrRange,
     ErrArgmin(String),
     ErrOther(String),
     Panic(String),
+    PredictPanic(String),
     Timeout,
 }
 
@@ -75,6 +77,25 @@ fn build(case: &TwCase) -> (linfa_linear::TweedieRegressorParams<f64>, Dataset<f
     (params, Dataset::new(x, y))
 }
 
+
+/// Query points for a fitted model: the training points, the origin and points along the coefficient
+/// vector with x.coef in {+-1, +-40, +-710, +-1000}. A pure function of (x, coef): the child evaluates the real
+/// `predict` on it, the parent rebuilds the same list for the oracle.
+pub fn tw_queries(x: &[Vec<f64>], w: &[f64]) -> Vec<Vec<f64>> {
+    let d = x[0].len();
+    let mut queries: Vec<Vec<f64>> = x.to_vec();
+    queries.push(vec![0.0; d]);
+    let ww: f64 = w.iter().map(|v| v * v).sum();
+    if w.len() == d && ww > 0.0 && ww.is_finite() {
+        for t in [1.0, 40.0, 710.0, 1000.0] {
+            for s in [1.0, -1.0] {
+                queries.push(w.iter().map(|v| v * s * t / ww).collect());
+            }
+        }
+    }
+    queries
+}
+
 pub fn fit_here(case: &TwCase) -> FitRes {
     let (params, ds) = build(case);
     match guarded(|| params.fit(&ds)) {
@@ -91,7 +112,24 @@ pub fn child_main(case_json: &str) -> ! {
     std::panic::set_hook(Box::new(|_| {}));
     let case: TwCase = serde_json::from_str(case_json).expect("case json");
     let v = match fit_here(&case) {
-        FitRes::Model(m) => serde_json::json!({"status": "ok", "coef": m.coef.iter().map(|v| v.to_bits()).collect::<Vec<u64>>(), "intercept": m.intercept.to_bits()}),
+        FitRes::Model(m) => {
+            let w: Vec<f64> = m.coef.to_vec();
+            let queries = tw_queries(&case.x, &w);
+            let d = case.x[0].len();
+            let preds: Vec<u64> = if w.len() == d {
+                let q = Array2::from_shape_fn((queries.len(), d), |(i, j)| queries[i][j]);
+                match guarded(|| m.predict(&q)) {
+                    Ok(p) => p.iter().map(|v| v.to_bits()).collect(),
+                    Err(p) => {
+                        println!("{}", serde_json::json!({"status": "predict_panic", "msg": p}));
+                        std::process::exit(0);
+                    }
+                }
+            } else {
+                vec![]
+            };
+            serde_json::json!({"status": "ok", "coef": m.coef.iter().map(|v| v.to_bits()).collect::<Vec<u64>>(), "intercept": m.intercept.to_bits(), "pred": preds})
+        }
         FitRes::ErrRange => serde_json::json!({"status": "err_range"}),
         FitRes::ErrArgmin(m) => serde_json::json!({"status": "err_argmin", "msg": m}),
         FitRes::ErrOther(m) => serde_json::json!({"status": "err_other", "msg": m}),
@@ -155,8 +193,10 @@ pub fn fit_isolated(case: &TwCase) -> FitRes {
     match v.get("status").and_then(|s| s.as_str()) {
         Some("ok") => {
             let coef: Vec<f64> = v["coef"].as_array().unwrap().iter().map(|b| f64::from_bits(b.as_u64().unwrap())).collect();
-            FitRes::Params(coef, f64::from_bits(v["intercept"].as_u64().unwrap()))
+            let pred: Vec<f64> = v["pred"].as_array().map(|a| a.iter().map(|b| f64::from_bits(b.as_u64().unwrap())).collect()).unwrap_or_default();
+            FitRes::Params(coef, f64::from_bits(v["intercept"].as_u64().unwrap()), pred)
         }
+        Some("predict_panic") => FitRes::PredictPanic(msg),
         Some("err_range") => FitRes::ErrRange,
         Some("err_argmin") => FitRes::ErrArgmin(msg),
         Some("err_other") => FitRes::ErrOther(msg),
@@ -190,20 +230,25 @@ pub fn run(case: &TwCase, viols: &mut Vec<Violation>) -> Out {
         _ => panic!("bad link"),
     };
 
-    // ---- targets outside the support must be rejected (the range test precedes the solver: in-process) ----
+    // ---- targets outside the support must be rejected ----
     if !in_support(case.power, &case.y) {
         out.nontrivial = true;
         out.tag("tweedie_out_of_support_cases");
-        match fit_here(case) {
+        match fit_isolated(case) {
             FitRes::ErrRange => {}
             FitRes::ErrArgmin(e) | FitRes::ErrOther(e) => viols.push(Violation::new("tweedie.fit.out_of_support_wrong_error", format!("targets {:?} outside the support of power {}: expected InvalidTargetRange, got Err({})", case.y, case.power, e), cj())),
-            FitRes::Model(m) => viols.push(Violation::new(
+            FitRes::Params(w, b, _) => viols.push(Violation::new(
                 "tweedie.fit.out_of_support_accepted",
-                format!("targets {:?} outside the support of power {} were accepted (coef {:?}, intercept {})", case.y, case.power, m.coef.to_vec(), m.intercept),
+                format!("targets {:?} outside the support of power {} were accepted (coef {:?}, intercept {})", case.y, case.power, w, b),
                 cj(),
             )),
-            FitRes::Panic(p) => viols.push(Violation::new("tweedie.fit.out_of_support_panic", format!("targets {:?} outside the support of power {}: panic {}", case.y, case.power, p), cj())),
-            _ => unreachable!(),
+            FitRes::Panic(p) | FitRes::PredictPanic(p) => viols.push(Violation::new("tweedie.fit.out_of_support_panic", format!("targets {:?} outside the support of power {}: panic {}", case.y, case.power, p), cj())),
+            FitRes::Timeout => viols.push(Violation::new(
+                "tweedie.fit.out_of_support_does_not_terminate",
+                format!("targets {:?} outside the support of power {}: expected InvalidTargetRange, but fit was still running after {} ms of CPU time", case.y, case.power, ISO_TIMEOUT_MS),
+                cj(),
+            )),
+            FitRes::Model(_) => unreachable!(),
         }
         return out;
     }
@@ -230,20 +275,16 @@ pub fn run(case: &TwCase, viols: &mut Vec<Violation>) -> Out {
         return out;
     }
 
-    // ---- fit with the real code ----
-    // identity link with a positive-support distribution: the deviance is undefined for linear predictors <= 0
-    // and the unconstrained line search may step there. Observed on the unchanged tree: Err(NaN) or an endless
-    // loop inside the line search. These fits run in a child process with a timeout; an honest Err from the
-    // solver is accepted there, a fit that does not return is a violation.
+    // ---- fit with the real code, always in a child process with a CPU-time limit ----
+    // Observed on the unchanged tree: with the identity link on a positive-support distribution the deviance is
+    // undefined for linear predictors <= 0, the unconstrained line search steps there and `fit` either returns
+    // Err(NaN), or never returns. A hanging call cannot be interrupted in-process, hence the child. For that
+    // (link, power) class an honest Err from the solver is accepted; a fit that does not return never is.
     let isolated = needs_isolation(case);
-    let fit = if isolated { fit_isolated(case) } else { fit_here(case) };
-    let (model, w, b) = match fit {
-        FitRes::Model(m) => {
-            let w = m.coef.to_vec();
-            let b = m.intercept;
-            (Some(m), w, b)
-        }
-        FitRes::Params(w, b) => (None, w, b),
+    let fit = fit_isolated(case);
+    let (w, b, pred) = match fit {
+        FitRes::Params(w, b, p) => (w, b, p),
+        FitRes::Model(_) => unreachable!(),
         FitRes::ErrArgmin(e) if isolated => {
             let _ = e;
             out.tag("tweedie_identity_link_solver_error_accepted");
@@ -263,6 +304,10 @@ pub fn run(case: &TwCase, viols: &mut Vec<Violation>) -> Out {
         }
         FitRes::Panic(p) => {
             viols.push(Violation::new("tweedie.fit.panic", format!("fit with targets inside the support panicked: {}", p), cj()));
+            return out;
+        }
+        FitRes::PredictPanic(p) => {
+            viols.push(Violation::new("tweedie.predict.panic", format!("prediction on finite queries panicked: {}", p), cj()));
             return out;
         }
         FitRes::Timeout => {
@@ -314,7 +359,7 @@ pub fn run(case: &TwCase, viols: &mut Vec<Violation>) -> Out {
                 if polished.f.is_finite() && gap > gap_tol {
                     // identity link on a positive-support distribution: the line search met a NaN cost (mean <= 0)
                     // and the solver gave up on the spot, handing back the documented start as if it had converged
-                    let kind = if isolated && theta == start { "returns_start_point_unchanged" } else { "not_stationary" };
+                    let kind = if isolated && theta == start && case.power != 1.0 { "returns_start_point_unchanged" } else { "not_stationary" };
                     viols.push(Violation::new(
                         format!("tweedie.fit.{}.{}.{}", kind, power_class(case.power), case.link),
                         format!(
@@ -328,29 +373,12 @@ pub fn run(case: &TwCase, viols: &mut Vec<Violation>) -> Out {
         }
     }
 
-    // ---- predictions (in-process fits only) ----
-    let model = match model {
-        Some(m) => m,
-        None => return out,
-    };
-    let mut queries: Vec<Vec<f64>> = case.x.clone();
-    queries.push(vec![0.0; d]);
-    let ww: f64 = w.iter().map(|v| v * v).sum();
-    if ww > 0.0 && ww.is_finite() {
-        for t in [1.0, 40.0, 710.0, 1000.0] {
-            for s in [1.0, -1.0] {
-                queries.push(w.iter().map(|v| v * s * t / ww).collect());
-            }
-        }
+    // ---- predictions (the real `predict`, evaluated in the child on tw_queries(x, coef)) ----
+    let queries = tw_queries(&case.x, &w);
+    if pred.len() != queries.len() {
+        viols.push(Violation::new("tweedie.predict.wrong_length", format!("{} predictions for {} query rows", pred.len(), queries.len()), cj()));
+        return out;
     }
-    let q = Array2::from_shape_fn((queries.len(), d), |(i, j)| queries[i][j]);
-    let pred = match guarded(|| model.predict(&q)) {
-        Ok(p) => p,
-        Err(p) => {
-            viols.push(Violation::new("tweedie.predict.panic", format!("prediction on finite queries panicked: {}", p), cj()));
-            return out;
-        }
-    };
     for (i, qi) in queries.iter().enumerate() {
         out.queries += 1;
         let eta = refopt::bin_score(qi, &w, false) + b;
